@@ -319,11 +319,16 @@ pub fn gen_cmd_world(rng: &mut Rng, first_party_in_registry: bool) -> CmdWorld {
                 let l: Vec<AuditEntry> = (0..rng.range(1, 3)).map(|_| { let mut a = audit(rng, &vs, &pnames, 1); a.importable = true; a }).collect();
                 f.audits.insert(name.clone(), l);
             }
-            if rng.chance(1, 4) {
-                f.wildcard_audits.entry(name.clone()).or_default().push(WildcardEntry {
-                    who: vec![], criteria: gen::gen_crit_list(rng, &pnames, false), user_id: rng.range(1, 2) as u64,
-                    start: gen::sp(gen::date(0)), end: gen::sp(gen::date(rng.below(8) as i64 * 10)), renew: None, notes: None, aggregated_from: vec![], is_fresh_import: false,
-                });
+            if rng.chance(1, 3) {
+                // one to three wildcard audits; some carry a single custom peer criterion (which
+                // the criteria-map may leave unmapped: such an entry is imported with no criteria)
+                for _ in 0..rng.range(1, 3) {
+                    let criteria = if rng.chance(1, 3) { vec![gen::sp((*rng.pick(&peer_customs)).to_owned())] } else { gen::gen_crit_list(rng, &pnames, false) };
+                    f.wildcard_audits.entry(name.clone()).or_default().push(WildcardEntry {
+                        who: vec![], criteria, user_id: rng.range(1, 2) as u64,
+                        start: gen::sp(gen::date(0)), end: gen::sp(gen::date(rng.below(10) as i64 * 10)), renew: None, notes: None, aggregated_from: vec![], is_fresh_import: false,
+                    });
+                }
             }
         }
         let url = peer_url(i);
